@@ -30,7 +30,8 @@ RULE = ("api: every sequence of <=3 (quick) / <=4 (thorough) calls over a 13-cal
         "of the output, unowned-fiber operands with their own rank attributes, int / float / bool values, same reuse variants; all "
         "chunked (spec on observations): Z += A with A in chunks of increasing coordinates populated with start_pos fed from "
         "getSavedPos() (first start_pos 0, or none), pre-populated outputs, depth 1-2, all cut points on a 4-coordinate small scope; all "
-        "kernel kinds also compare output attributes (ids, shape, default, formats) and the operands left behind off vs on. non-trivial api case = a session with at least one "
+        "assign (spec on observations): copy / selection / project kernels (`z_ref <<= a_val`) under leaf defaults 7, -1, 0 with stored zeros and "
+        "explicit defaults, traces incl. project_<n>; all kernel kinds also compare output attributes (ids, shape, default, formats) and the operands left behind off vs on. non-trivial api case = a session with at least one "
         "counter or started trace; non-trivial kernel case = at least one loop body ran and a trace or counter moved")
 
 RANKS = ["M", "K", "N"]
@@ -503,11 +504,11 @@ def gen_kernel(rng, tier):
                 if k % 7 == 0:
                     c["repeat"] = 2
                 yield c
-    reps = 30 if tier == "quick" else 1200
+    reps = 22 if tier == "quick" else 1200
     for loops, out, opr in CLASSIC:
         for _ in range(reps):
             yield _mk_kernel(rng, list(loops), list(out), [list(o) for o in opr])
-    nrand = 1500 if tier == "quick" else 60000
+    nrand = 1200 if tier == "quick" else 60000
     for _ in range(nrand):
         loops, out, opr = _random_shape(rng)
         yield _mk_kernel(rng, loops, out, opr)
@@ -585,7 +586,7 @@ def _mk_program(rng, c6):
 def gen_program(rng, seed, tier):
     K6 = _k6()
     base = [c for c in K6.gen(seed, "quick") if K6.well_formed(c)]
-    want = 900 if tier == "quick" else 30000
+    want = 750 if tier == "quick" else 30000
     stride = max(1, len(base) // want)
     for c6 in base[rng.randrange(stride)::stride]:
         yield _mk_program(rng, c6)
@@ -725,7 +726,7 @@ def gen_chunked(rng, tier):
                 c["first_pos"], c["zdecl"], c["hist"] = 0, True, []
                 c["traces"] = [["M", "populate_write_0"]] if k % 2 else [["M", t] for t in TYPES]
                 yield c
-    for _ in range(500 if tier == "quick" else 20000):
+    for _ in range(350 if tier == "quick" else 20000):
         yield _mk_chunked(rng)
 
 
@@ -773,6 +774,135 @@ def run_chunked(case):
     return _run_measured(case, _ChunkRunner)
 
 
+# ---------------------------------------------------------------------------------------
+# assignment / selection kernels under ANY default (copy, intersections, project): transparency does not
+# need a sum-of-products meaning
+# ---------------------------------------------------------------------------------------
+
+ASSIGN_SHAPES = ["copy1", "copy2", "and1", "tf1", "lf1", "proj1", "projiter", "and0", "lf0"]
+PTYPES = TYPES + ["project_0", "project_1", "project_2"]
+
+
+def _mk_assign(rng, shape=None, dflt=None):
+    shape = shape or rng.choice(ASSIGN_SHAPES)
+    dflt = rng.choice([7, 7, -1, 0]) if dflt is None else dflt
+    n = rng.choice([3, 4, 6])
+    depth = 2 if shape == "copy2" else 1
+    # stored genuine zeros (a value like any other under a non-zero default) outnumber the explicit defaults
+    pool = (0, 0, 0, 1, 2, -3, dflt)
+    nops = 2 if shape in ("and1", "tf1", "lf1", "and0", "lf0") else 1
+    trees = [H.gen_tree(rng, depth, n, pool, dflt, p_absent=rng.choice([0.1, 0.3, 0.5]), p_default=0.1,
+                        p_emptysub=0.1, p_alldefault=0.05) for _ in range(nops)]
+    proj = shape in ("proj1", "projiter")
+    off = rng.choice([0, 1, 2]) if proj else 0
+    loop = ["W"] if proj else (["M", "N"][:depth])
+    src = ["K"] if proj else loop
+    names = sorted(set(loop + src))
+    has_z = shape not in ("projiter", "and0", "lf0")
+    z = H.gen_tree(rng, depth, n + off, pool, dflt, p_absent=0.6) if (has_z and rng.random() < 0.3) else []
+    case = {"prop": PROP, "kind": "assign", "style": "assign-" + shape, "shape": shape, "dflt": dflt, "n": n, "off": off,
+            "depth": depth, "trees": trees, "z": z, "zdecl": rng.random() < 0.8, "ranks": loop, "src_ranks": src,
+            "pfx": rng.choice(PFX), "fmtU": [], "nU": 0, "solo_u": [], "vals": "int", "tiled": 0, "bare": 0}
+    u = rng.random()
+    case["traces"] = ([] if u < 0.08 else [[v, "iter"] for v in names] if u < 0.2 else
+                      [[v, t] for v in names for t in PTYPES] if u < 0.5 else
+                      [[v, t] for v in names for t in PTYPES if rng.random() < 0.4])
+    case["hist"] = _hist(rng, case["pfx"], names) if rng.random() < 0.3 else []
+    u = rng.random()
+    if u < 0.08:
+        case["repeat"] = 2
+    elif u < 0.16:
+        case["inside"] = 1
+    return case
+
+
+def gen_assign(rng, tier):
+    # small scope: every leaf fiber over 3 coordinates x {absent, stored 0, explicit default 7, value 1} under default 7,
+    # with every position-carrying trace on
+    fibs = list(H.all_leaf_fibers(3, [0, 7, 1]))
+    k = 0
+    for shape in ("copy1", "proj1", "lf1", "and1"):
+        for a in fibs:
+            for b in (fibs[:: (16 if tier == "quick" else 1)] if shape in ("lf1", "and1") else [None]):
+                k += 1
+                c = _mk_assign(rng, shape, 7)
+                c["n"], c["trees"], c["z"], c["hist"], c["zdecl"] = 3, ([a] if b is None else [a, b]), [], [], True
+                c.pop("repeat", None)
+                c["traces"] = [[v, t] for v in sorted(set(c["ranks"] + c["src_ranks"])) for t in PTYPES]
+                yield c
+    for _ in range(450 if tier == "quick" else 20000):
+        yield _mk_assign(rng)
+
+
+class _AssignRunner:
+    @staticmethod
+    def build_ops(case):
+        ft = H.ft()
+        d, n, dflt = case["depth"], case["n"], case["dflt"]
+        ids = case["src_ranks"] if case["shape"] in ("proj1", "projiter") else case["ranks"]
+        return [ft.Tensor.fromFiber(rank_ids=list(ids), fiber=H.build_fiber(t, d, dflt), shape=[n] * d, default=dflt)
+                for t in case["trees"]]
+
+    @staticmethod
+    def new_z(case, pre=False):
+        ft = H.ft()
+        d, n, dflt = case["depth"], case["n"] + case["off"], case["dflt"]
+        kw = {"shape": [n] * d} if (case["zdecl"] or pre) else {}
+        if case["z"] and not pre:
+            return ft.Tensor.fromFiber(rank_ids=list(case["ranks"]), fiber=H.build_fiber(case["z"], d, dflt),
+                                       default=dflt, **kw)
+        return ft.Tensor(rank_ids=list(case["ranks"]), default=dflt, **kw)
+
+    @staticmethod
+    def execute(case, ops, z, bodies):
+        ft = H.ft()
+        shape, off = case["shape"], case["off"]
+        z_m = z.getRoot()
+        a_m = ops[0].getRoot()
+        seen = []
+        z._c15_extra = {"yielded": seen}
+
+        def hit(r):
+            bodies[r] = bodies.get(r, 0) + 1
+
+        if shape == "copy1":
+            for _m, (z_ref, a_val) in z_m << a_m:
+                hit("M")
+                z_ref <<= a_val
+        elif shape == "copy2":
+            for _m, (z_n, a_n) in z_m << a_m:
+                hit("M")
+                for _n, (z_ref, a_val) in z_n << a_n:
+                    hit("N")
+                    z_ref <<= a_val
+        elif shape in ("and1", "tf1", "lf1"):
+            b_m = ops[1].getRoot()
+            src = (a_m & b_m) if shape == "and1" else ft.Fiber.intersection(
+                a_m, b_m, style="two-finger" if shape == "tf1" else "leader-follower")
+            for _m, (z_ref, (a_val, b_val)) in z_m << src:
+                hit("M")
+                z_ref <<= a_val
+                seen.append([_m, H.snapshot(b_val)])
+        elif shape in ("and0", "lf0"):
+            b_m = ops[1].getRoot()
+            src = (a_m & b_m) if shape == "and0" else ft.Fiber.intersection(a_m, b_m, style="leader-follower")
+            for _m, (a_val, b_val) in src:
+                hit("M")
+                seen.append([_m, H.snapshot(a_val), H.snapshot(b_val)])
+        elif shape == "proj1":
+            for _w, (z_ref, a_val) in z_m << a_m.project(trans_fn=lambda k: k + off, rank_id="W"):
+                hit("W")
+                z_ref <<= a_val
+        else:       # projiter
+            for _w, a_val in a_m.project(trans_fn=lambda k: k + off, rank_id="W"):
+                hit("W")
+                seen.append([_w, H.snapshot(a_val)])
+
+
+def run_assign(case):
+    return _run_measured(case, _AssignRunner)
+
+
 def gen(seed, tier):
     rng = random.Random(seed)
     yield from gen_api(rng, tier)
@@ -782,6 +912,8 @@ def gen(seed, tier):
     yield from gen_program(rng, seed, tier)
     rng = random.Random(seed + 3)
     yield from gen_chunked(rng, tier)
+    rng = random.Random(seed + 4)
+    yield from gen_assign(rng, tier)
 
 
 # ---------------------------------------------------------------------------------------
@@ -999,6 +1131,8 @@ def _session(case, R, d, collect, with_pre):
             obs["attrs"] = _attrs(z)
             if hasattr(z, "_c15_positions"):        # the saved positions the kernel read back (chunked accumulate)
                 obs["res"] = {"z": obs["res"], "saved_pos": list(z._c15_positions)}
+            if hasattr(z, "_c15_extra"):            # what a kernel without an output tensor delivered
+                obs["res"] = dict({"z": obs["res"]}, **z._c15_extra)
             obs["ops_after"] = [H.snapshot(o.getRoot()) if hasattr(o, "getRoot") else H.snapshot(o[1]) for o in ops]
         except Exception as e:  # an abort is an observation
             name, line = _err_info(e)
@@ -1099,6 +1233,8 @@ def run(case):
         return run_api(case)
     if case["kind"] == "chunked":
         return run_chunked(case)
+    if case["kind"] == "assign":
+        return run_assign(case)
     return run_program(case) if case["kind"] == "program" else run_kernel(case)
 
 
@@ -1110,6 +1246,8 @@ def nontrivial(case, verdict):
         return "session" in t and bool(t & {"started", "history", "rejected", "never-started"})
     if case["kind"] in ("program", "chunked"):
         return "effectual" in t
+    if case["kind"] == "assign":
+        return "ran-bodies" in t
     return bool(t & {"mul", "add", "traced-iterated", "revisit"})
 
 
@@ -1142,7 +1280,7 @@ def _classes(why):
 
 
 def signature(case, verdict, failed):
-    kind = "kernel" if case["kind"] in ("program", "chunked") else case["kind"]      # programs are kernels: same finding classes
+    kind = "kernel" if case["kind"] in ("program", "chunked", "assign") else case["kind"]      # programs are kernels: same finding classes
     cls = _classes(verdict.get("why", "")) if "spec" in failed else []
     sides = sorted(f.split(":")[0] for f in failed if f != "spec")
     new = [c for c in cls if c not in DOCUMENTED] + sides
@@ -1194,6 +1332,18 @@ def shrink_candidates(case):
             c = dict(case)
             c.pop(key)
             yield c
+    if case["kind"] == "assign":
+        for k in range(len(case["trees"])):
+            for t2 in _tree_shrinks(case["trees"][k]):
+                c = dict(case)
+                c["trees"] = list(case["trees"])
+                c["trees"][k] = t2
+                yield c
+        for t2 in _tree_shrinks(case["z"]):
+            c = dict(case)
+            c["z"] = t2
+            yield c
+        return
     if case["kind"] == "chunked":
         for k in range(len(case["chunks"])):
             for t2 in _tree_shrinks(case["chunks"][k]):
